@@ -46,6 +46,21 @@ Break and Exit into BASIC behaviour; anything else escapes.  Decided:
     a site that is not in the table is a violation.  On the pinned tree this
     found LOAD of a protected file without payload (unprotect: `c`, repaired in
     a4516a99) and OPEN "CON" FOR APPEND (`dev_param`, repaired in ebb54d70).
+E10 the calls in execute / evaluate / interact that run BASIC code sit inside
+    `with self._handle_exceptions()`;
+E11 lookups in module-level constant tables with a run-time key are inside a
+    try that catches KeyError, under a membership test on the same key and
+    table, or in a frozen table with the reason the key is always present;
+    constant keys must be keys of the table; the adapters' mode lists and the
+    mode descriptions agree (PLAY with a forged VARPTR$ type byte raised
+    KeyError; repaired in 103d9d6b);
+E12 sibling devices: a device class whose available() is `self.X is not None`
+    refuses OPEN with Device Unavailable under a test of the same X, and uses X
+    only after that test (OPEN "LPT2:" with nothing attached handed out a file
+    on a None stream; repaired in bc5e3143);
+E13 a device's master file may be None: whoever reads `<device>.device_file`
+    tests it before use, or keeps it only from a device whose constructor
+    always creates one (WIDTH "LPT2:",40 raised AttributeError; 16399ed3).
 Not decided: exceptions raised implicitly by arbitrary Python operations
 outside these patterns -- no sound static argument in reach bounds those.
 """
@@ -577,6 +592,211 @@ def check_e9(ctx, rep):
     rep.note('E9.table_entries_unused', sorted('%s:%s' % k for k in set(E9_TABLE) - seen))
 
 
+# E11 triage table: (function, lookup) -> why the key is always in the table
+E11_TABLE = {
+    ('CassetteStream.open_write', 'TYPE_TO_TOKEN[filetype]'):
+        'filetype comes from Files.open / the program (LOAD/SAVE/BSAVE) paths, which pass one of D A B P M; TYPE_TO_TOKEN has all five',
+    ('DiskDevice.open_stream', 'ACCESS_MODES[mode]'):
+        'mode passed Device.open`s `mode not in self.allowed_modes` test (IOR for disks) or is a literal in the callers; ACCESS_MODES has I O R A',
+    ('BinaryFile.__init__', 'TYPE_TO_MAGIC[filetype]'):
+        'constructed only under `filetype in (B, P, M)` in DiskDevice._create_file_object; TYPE_TO_MAGIC has all three',
+    ('_CompositeMixin._get_rgb_table', 'COMPOSITE[self._adapter]'):
+        'read only when self._has_composite, which __init__ sets to `monitor == composite and adapter in COMPOSITE`',
+    ('get_mode', '_MODE_INFO[name]'):
+        'name is a value of _MODES; E11.mode-tables-agree shows every such value is a key of _MODE_INFO',
+    ('UserFunction.evaluate', 'values.TYPE_TO_CONV[self._memory.complete_name(name)[-1:]]'):
+        'complete_name always returns a name ending in one of the four sigils',
+    ('size_bytes', 'TYPE_TO_SIZE[name[-1:]]'):
+        'internal primitive: callers pass a completed name or a sigil (Memory.complete_name / tokeniser); not decided per call site',
+    ('Values.create', 'SIZE_TO_CLASS[len(buf)]'):
+        'internal primitive: buffers are slices of the sizes in TYPE_TO_SIZE made by the variable stores',
+    ('Values.new', 'TYPE_TO_CLASS[sigil]'):
+        'internal primitive: sigil is name[-1:] of a completed name, or a literal',
+    ('Values.from_value', 'TYPE_TO_CLASS[typechar]'):
+        'internal primitive: typechar is a literal sigil at every caller (API conversion, INPUT, READ)',
+    ('Values.from_bytes', 'SIZE_TO_CLASS[len(token_bytes)]'):
+        'callers pass token payloads of the sizes in PLUS_BYTES (padded at end of stream since 3c00fe40) or a size checked against SIZE_TO_TYPE (103d9d6b)',
+}
+
+
+def _is_table(val):
+    return isinstance(val, (ast.Dict, ast.DictComp)) or (
+        isinstance(val, ast.Call) and norm(val.func) in ('dict', 'OrderedDict', 'collections.OrderedDict'))
+
+
+def check_e11(ctx, rep):
+    """Lookups in module-level constant tables: the key is known to be present, or a miss is caught."""
+    n = n_static = 0
+    seen = set()
+    for fn in ctx.idx.functions('pcbasic/basic/'):
+        fl = None
+        who = qualname(fn).split(':')[1]
+        module = ctx.idx.modules[qualname(fn).split(':')[0]]
+        for sub in own_nodes(fn):
+            if not (isinstance(sub, ast.Subscript) and isinstance(sub.ctx, ast.Load)) or isinstance(sub.slice, ast.Slice):
+                continue
+            base = norm(sub.value)
+            last = base.split('.')[-1]
+            if base.startswith('self.') or not last.replace('_', '').isupper() or not last.replace('_', '').isalpha():
+                continue
+            r = ctx.idx.resolve_name(module, base)
+            if not r or r[0] != 'const':
+                continue
+            val = r[1]
+            if not _is_table(val):
+                continue
+            n += 1
+            text = norm(sub)
+            key = ctx.cf.fold(sub.slice, module)
+            if not is_unknown(key):
+                n_static += 1
+                if isinstance(val, ast.Dict):
+                    rmod = [m for m in ctx.idx.modules.values() if m.assigns.get(last) is val]
+                    keys = [ctx.cf.fold(k, rmod[0]) for k in val.keys] if rmod else None
+                    if keys is not None and not any(is_unknown(k) for k in keys):
+                        rep.ob('E11.constant-key-present', '%s: %s' % (who, text), key in keys,
+                               'constant key %r is not in the table: KeyError on every execution' % (key,), ctx.where(sub))
+                continue
+            fl = fl or ctx.flow(fn)
+            guarded = bool(fl.in_try_catching(sub, ('KeyError', 'LookupError', 'Exception')))
+            kt = norm(sub.slice)
+            for f in fl.facts(sub):
+                if (f.text == '%s in %s' % (kt, base) and f.pol) or (f.text == '%s not in %s' % (kt, base) and not f.pol):
+                    guarded = True
+            if guarded:
+                rep.ob('E11.table-lookup-guarded', '%s: %s' % (who, text), True, '', ctx.where(sub))
+                continue
+            seen.add((who, text))
+            reason = E11_TABLE.get((who, text))
+            rep.ob('E11.table-lookup-guarded', '%s: %s' % (who, text), reason is not None,
+                   reason or 'lookup in a constant table with a run-time key, not inside a try that catches KeyError and not under a membership test: a key outside the table ends in KeyError',
+                   ctx.where(sub))
+    rep.floor('E11.table-lookup-guarded', n, 30, 'lookups in module-level constant tables')
+    rep.note('E11.sites', dict(total=n, constant_keys=n_static, triaged=len(seen)))
+    rep.note('E11.table_entries_unused', sorted('%s:%s' % k for k in set(E11_TABLE) - seen))
+    # the mode tables agree: every mode name the adapters list is described
+    modes = ctx.idx.modules['pcbasic/basic/display/modes.py']
+    m_modes, m_info = modes.assigns.get('_MODES'), modes.assigns.get('_MODE_INFO')
+    if m_modes is None or m_info is None:
+        raise AnalysisError('modes.py: _MODES / _MODE_INFO not found')
+    info_keys = set(k.value for k in m_info.keys if isinstance(k, ast.Constant))
+    for st in modes.tree.body:
+        if isinstance(st, ast.Assign) and isinstance(st.targets[0], ast.Subscript) and norm(st.targets[0].value) == '_MODE_INFO' \
+                and isinstance(st.targets[0].slice, ast.Constant):
+            info_keys.add(st.targets[0].slice.value)
+    names = []
+    for adapter in m_modes.values:
+        if isinstance(adapter, ast.Dict):
+            names.extend(v for v in adapter.values)
+    for v in names:
+        rep.ob('E11.mode-tables-agree', '_MODES names %s' % norm(v), isinstance(v, ast.Constant) and v.value in info_keys,
+               'mode name listed for an adapter but not described in _MODE_INFO: SCREEN with that mode ends in KeyError', 'pcbasic/basic/display/modes.py (line %d)' % v.lineno)
+    rep.floor('E11.mode-tables-agree', len(names), 40, 'mode names in _MODES')
+
+
+def check_e12(ctx, rep):
+    """Sibling devices: a device that can be unattached refuses OPEN before it hands out its missing stream."""
+    n = 0
+    for cls in [c for (path, _n), c in sorted(ctx.idx.class_table().items()) if path.startswith('pcbasic/basic/devices/')]:
+        meths = class_methods(cls)
+        av, op = meths.get('available'), meths.get('open')
+        if av is None:
+            continue
+        rets = [r for r in own_nodes(av) if isinstance(r, ast.Return) and r.value is not None]
+        if len(rets) != 1 or not (isinstance(rets[0].value, ast.Compare) and norm(rets[0].value).endswith(' is not None')):
+            continue
+        attr = norm(rets[0].value.left)
+        n += 1
+        if op is None:
+            rep.ob('E12.unattached-device-refuses-open', '%s: open()' % cls.name, False,
+                   'available() depends on %s but the class has no open() of its own' % attr, ctx.where(cls))
+            continue
+        fl = ctx.flow(op)
+        refusal = [r for r, c in ctx.raises_in(op) if c == 'DEVICE_UNAVAILABLE' and
+                   any((f.text in ('not %s' % attr, '%s is None' % attr) and f.pol) or (f.text in (attr, '%s is not None' % attr) and not f.pol) for f in fl.facts(r))]
+        rep.ob('E12.unattached-device-refuses-open', '%s.open: raises Device Unavailable when %s is missing' % (cls.name, attr), bool(refusal),
+               'available() says the device is absent when %s is None, but open() does not refuse: a file is opened on a None stream and the first write ends in AttributeError' % attr,
+               ctx.where(op))
+        for u in own_nodes(op):
+            if isinstance(u, ast.Attribute) and norm(u) == attr and isinstance(u.ctx, ast.Load):
+                facts = fl.facts(u)
+                tested_here = any(attr in f.text for f in facts) or any(isinstance(p_, ast.If) and u in list(ast.walk(p_.test)) for p_ in own_nodes(op))
+                rep.ob('E12.unattached-device-refuses-open', '%s.open: use of %s (line-independent: %s)' % (cls.name, attr, short(fl.stmt_of(u), 50) if hasattr(fl, 'stmt_of') else ''),
+                       tested_here, 'used on a path on which it was never tested', ctx.where(u))
+    rep.floor('E12.unattached-device-refuses-open', n, 3, 'device classes whose availability depends on an attached stream')
+
+
+def _refused_right_after(assign, local):
+    """The statement after `local = ...` (or after the try that holds it) is `if local is None: raise ...`."""
+    st = assign
+    while isinstance(getattr(st, '_parent', None), ast.Try) and st in st._parent.body:
+        st = st._parent
+    par = getattr(st, '_parent', None)
+    for fld in ('body', 'orelse', 'finalbody'):
+        block = getattr(par, fld, None)
+        if isinstance(block, list) and st in block:
+            i = block.index(st)
+            if i + 1 < len(block):
+                nxt = block[i + 1]
+                return isinstance(nxt, ast.If) and norm(nxt.test) in ('%s is None' % local, 'not %s' % local) \
+                    and isinstance(nxt.body[-1], (ast.Raise, ast.Return))
+    return False
+
+
+def check_e13(ctx, rep):
+    """A device's master file may be None (nothing attached): whoever fetches `<device>.device_file` tests it before use."""
+    n = 0
+    for fn in ctx.idx.functions('pcbasic/basic/'):
+        who = qualname(fn).split(':')[1]
+        fl = None
+        for a in own_nodes(fn):
+            if not (isinstance(a, ast.Attribute) and a.attr == 'device_file' and isinstance(a.ctx, ast.Load)) or norm(a.value) == 'self':
+                continue
+            fl = fl or ctx.flow(fn)
+            n += 1
+            par = getattr(a, '_parent', None)
+            text = norm(a)
+            if isinstance(par, ast.Attribute) and par.value is a:
+                rep.ob('E13.master-file-tested-before-use', '%s: %s' % (who, norm(par)), _not_none(fl, par, text),
+                       'the device may have nothing attached (device_file is None): AttributeError', ctx.where(a))
+            elif isinstance(par, ast.Assign) and isinstance(par.targets[0], ast.Name):
+                local = par.targets[0].id
+                uses = [u for u in own_nodes(fn) if isinstance(u, ast.Attribute) and norm(u.value) == local and isinstance(u.ctx, ast.Load) and u.lineno > par.lineno]
+                refused = _refused_right_after(par, local)
+                for u in uses:
+                    rep.ob('E13.master-file-tested-before-use', '%s: %s (from %s)' % (who, norm(u), text), refused or _not_none(fl, u, local),
+                           'the device may have nothing attached (device_file is None): AttributeError', ctx.where(u))
+            elif isinstance(par, ast.Assign) and isinstance(par.targets[0], ast.Attribute) and isinstance(a.value, ast.Subscript):
+                # kept for unconditional use: the device must be one that always has a master file
+                key = ctx.fold(a.value.slice)
+                devs = [v for d in own_nodes(fn) if isinstance(d, ast.Dict) for k, v in zip(d.keys, d.values) if k is not None and ctx.fold(k) == key]
+                ok, why = False, 'device %r is not constructed in this function' % (key,)
+                if len(devs) == 1 and isinstance(devs[0], ast.Call):
+                    cname = norm(devs[0].func).split('.')[-1]
+                    cls = [c for (path, nm), c in ctx.idx.class_table().items() if nm == cname and path.startswith('pcbasic/basic/devices/')]
+                    init = class_methods(cls[0]).get('__init__') if cls else None
+                    if init is not None:
+                        ifl = ctx.flow(init)
+                        sets = [st for st in own_nodes(init) if isinstance(st, ast.Assign) and norm(st.targets[0]) == 'self.device_file' and not (isinstance(st.value, ast.Constant) and st.value.value is None)]
+                        uncond = [st for st in sets if not ifl.facts(st)]
+                        if uncond:
+                            ok, why = True, ''
+                        elif sets and all([(f.text, f.pol) for f in ifl.facts(st)] == [('self.stream', True)] for st in sets):
+                            # LPT: the master file exists if a stream does; the stream defaults to the second constructor argument
+                            dflt = devs[0].args[1] if len(devs[0].args) > 1 else None
+                            ok = dflt is not None and not (isinstance(dflt, ast.Constant) and dflt.value is None)
+                            why = '' if ok else 'the device is constructed without a default stream, so its master file can be None, but it is kept for unconditional use'
+                        else:
+                            why = '%s.__init__ does not always create a master file' % cname
+                rep.ob('E13.master-file-tested-before-use', '%s: %s kept as %s' % (who, text, norm(par.targets[0])), ok, why, ctx.where(a))
+            elif isinstance(par, (ast.BoolOp, ast.If, ast.While, ast.IfExp)) or (isinstance(par, ast.UnaryOp) and isinstance(par.op, ast.Not)) \
+                    or (isinstance(par, ast.Compare) and all(isinstance(o, (ast.Is, ast.IsNot)) for o in par.ops)):
+                rep.ob('E13.master-file-tested-before-use', '%s: %s is a truth test' % (who, short(par, 50)), True, '', ctx.where(a))
+            else:
+                rep.ob('E13.master-file-tested-before-use', '%s: %s' % (who, short(fl.stmt_of(a), 60)), False, 'unrecognised use of a master file that may be None', ctx.where(a))
+    rep.floor('E13.master-file-tested-before-use', n, 5, 'reads of another object`s device_file')
+
+
 RUNS_BASIC = ('self._store_line', 'self.interpreter.loop', 'self.parser.parse_expression', 'self.tokeniser.tokenise_line',
               'self._auto_step', 'self._show_prompt', 'self.console.read_line')
 
@@ -600,6 +820,9 @@ def check_e10(ctx, rep):
 def check(ctx, rep):
     check_e9(ctx, rep)
     check_e10(ctx, rep)
+    check_e11(ctx, rep)
+    check_e12(ctx, rep)
+    check_e13(ctx, rep)
     check_e1(ctx, rep)
     check_e2(ctx, rep)
     check_e3(ctx, rep)
@@ -643,6 +866,20 @@ def variants(ctx):
            in_fn('unprotect', lambda fn: mu.remove_stmt(fn, mu.text_is('c = 0'))), expect='E9'),
         Va('con-append-unbound', 'break', 'pcbasic/basic/devices/files.py',
            in_fn('Files._get_device_param', lambda fn: mu.remove_stmt(fn, lambda st: isinstance(st, ast.Raise) and 'BAD_FILE_MODE' in norm(st))), expect='E9'),
+        Va('varptrstr-type-byte-unchecked', 'break', 'pcbasic/basic/memory/memory.py',
+           in_fn('DataSegment.get_value_for_varptrstr', lambda fn: mu.remove_stmt(fn, lambda st: isinstance(st, ast.If) and 'SIZE_TO_TYPE' in norm(st.test))), expect='E11.table-lookup-guarded'),
+        Va('adapter-lists-undescribed-mode', 'break', 'pcbasic/basic/display/modes.py',
+           lambda tree: mu.replace_expr(tree, lambda n: isinstance(n, ast.Constant) and n.value == '640x350x4c' and n.col_offset < 16, "'640x350x4x'"), expect='E11.mode-tables-agree'),
+        Va('neutral-varptrstr-check-as-positive-test', 'neutral', 'pcbasic/basic/memory/memory.py',
+           in_fn('DataSegment.get_value_for_varptrstr', lambda fn: mu.replace_expr(fn, mu.text_is('size not in values.SIZE_TO_TYPE'), 'not (size in values.SIZE_TO_TYPE)'))),
+        Va('lpt-open-on-missing-stream', 'break', 'pcbasic/basic/devices/parports.py',
+           in_fn('LPTDevice.open', lambda fn: mu.remove_stmt(fn, lambda st: isinstance(st, ast.If) and 'self.stream' in norm(st.test))), expect='E12'),
+        Va('com-open-refusal-after-use', 'break', 'pcbasic/basic/devices/ports.py',
+           in_fn('COMDevice.open', lambda fn: mu.replace_expr(fn, mu.text_is('not self._serial'), 'not self._spec')), expect='E12'),
+        Va('width-on-unattached-device', 'break', 'pcbasic/basic/devices/files.py',
+           in_fn('Files.width_', lambda fn: mu.remove_stmt(fn, lambda st: isinstance(st, ast.If) and norm(st.test) == 'dev is None')), expect='E13'),
+        Va('lpt1-without-default-stream', 'break', 'pcbasic/basic/devices/files.py',
+           in_fn('Files._init_devices', lambda fn: mu.replace_expr(fn, mu.text_is('devicebase.nullstream()'), 'None')), expect='E13'),
         Va('neutral-try-widened', 'neutral', INTERP,
            in_fn('Interpreter.iterate_loop', lambda fn: mu.replace_expr(fn, lambda n: isinstance(n, ast.Name) and n.id == 'OverflowError', 'ArithmeticError'))),
     ]
